@@ -89,6 +89,9 @@ func openSession(policy rawclient.AckPolicy, bufSize int64) (*session, error) {
 	return openSessionID(policy, bufSize, uniqueCID("cl"))
 }
 
+// sessionConnectTimeout is the ConnectTimeout (seconds) of the Clients openSessionID creates.
+var sessionConnectTimeout = 5
+
 // openSessionID is openSession with a given client identifier. A panic inside Client.Connect is
 // returned as an error that starts with "panic:".
 func openSessionID(policy rawclient.AckPolicy, bufSize int64, cid string) (*session, error) {
@@ -96,7 +99,7 @@ func openSessionID(policy rawclient.AckPolicy, bufSize int64, cid string) (*sess
 	if err != nil {
 		return nil, err
 	}
-	cln := &service.Client{ConnectTimeout: 5, BufferSize: bufSize}
+	cln := &service.Client{ConnectTimeout: sessionConnectTimeout, BufferSize: bufSize}
 	errc := make(chan error, 1)
 	go func() {
 		defer func() {
